@@ -64,6 +64,10 @@ def sem_fixed():
         Variant("FxK1", "struct", [Field("fx_k1", prim("String"))]), Variant("FxK2", "struct", [Field("fx_k2", prim("u8"))])]))
     mm = add(Item("FxMimeBoth", "FxMimeBoth", "named", fields=[Field("fx_ma", user(em), flatten=True), Field("fx_mb", user(en), flatten=True)]))
     add(Item("FxOnlyFlatMime", "FxOnlyFlatMime", "named", fields=[Field("fx_only", user(mm), flatten=True)]))
+    # KF: serde's catch-all for unknown keys, a flattened map
+    fm = Field("fx_extra", Ty("map", "BTreeMap", args=[prim("String"), prim("i32")]), flatten=True)
+    fm.tags.append("k:flatten-map")
+    add(Item("FxFlatMap", "FxFlatMap", "named", fields=[Field("fx_known", prim("bool")), fm]))
     # rename_all_fields with a struct variant that has no fields (serde accepts it)
     add(Item("FxRenameAllFieldsEmpty", "FxRenameAllFieldsEmpty", "enum", rename_all_fields="camelCase", variants=[
         Variant("FxEmptyV", "struct", []), Variant("FxFullV", "struct", [Field("fx_x_y", prim("i32"))])]))
